@@ -15,10 +15,11 @@ def gen_cases(tier, rng):
         alpha = ["r:7"] + ["x:%d" % i for i in range(1, mx + 2)] + ["l:%d" % i for i in range(0, mx + 2)]
         if tier == "quick":
             alpha = ["r:7"] + ["x:%d" % i for i in range(1, mx + 2)] + ["l:%d" % i for i in range(1, mx + 1)]
+        alpha.append("r:5555")      # the SAME application pointer registered again: every registration gets a token of its own
         for d in range(1, depth + 1):
             for ops in itertools.product(alpha, repeat=d):
                 # keep histories that register at least once (others are trivial)
-                if "r:7" in ops:
+                if "r:7" in ops or ops.count("r:5555") >= 2:
                     ptrs = []
                     n = 0
                     out = []
